@@ -3,7 +3,7 @@ at a time to a scratch copy of /repo/boltons under /tmp/scratch_C03 (never touch
 registered quick check against it with VERIF_REPO, prints one line per mutant, removes the scratch
 copy.  usage: /venv/bin/python harness/translators/c03_mutants.py [name ...]   (default: all)
 Expected: every M* -> rc=1 with VIOLATION lines; every H* -> rc=0.  Do not run two C03 checks at
-the same time (they share coq/Gen/C03_Gen.v)."""
+the same time on the SAME Coq tree; this script gives every mutant a private copy (VERIF_COQ/VERIF_BUILD)."""
 import subprocess, shutil, os, sys, re
 SRC = open('/repo/boltons/cacheutils.py').read()
 
@@ -87,7 +87,10 @@ for name in names:
     assert new != SRC, name
     compile(new, "cacheutils.py", "exec")
     open(d + "/boltons/cacheutils.py", "w").write(new)
-    env = dict(os.environ, VERIF_REPO=d, VERIF_JOBS="4")
+    # private copy of the Coq tree: the regenerated Gen file of the mutant never touches /verif/coq
+    subprocess.run(["cp", "-a", "/verif/coq", d + "/coq"], check=True)
+    env = dict(os.environ, VERIF_REPO=d, VERIF_JOBS="4", VERIF_COQ=d + "/coq", VERIF_BUILD=d + "/build",
+               VERIF_EVIDENCE_DIR=d + "/ev", VERIF_REPLAY_DIR=d + "/rp")
     p = subprocess.run(["/venv/bin/python", "/verif/harness/vcheck.py", "C03", "--tier", "quick"], env=env, stdout=subprocess.PIPE, stderr=subprocess.STDOUT, text=True, timeout=1500)
     lines = [l for l in p.stdout.splitlines() if l.startswith(("C03 tier", "VIOLATION", "HARNESS", "KNOWN"))]
     print(name, "rc=%d" % p.returncode, " | ".join(lines), flush=True)
